@@ -19,7 +19,9 @@ def random_case(prop, rng, tier):
              'resource': rng.choice([None, 'ann', 'a-very-long-resource-name']), 'estimate': rng.choice([None, 3, 2.5, 100000]), 'spent': rng.choice([None, 0, 1.5]),
              'start': rng.randrange(0, 400) if rng.random() < 0.5 else None, 'custom': {}, 'other': rng.random() < 0.15, 'detached': rng.random() < 0.12}
         if rng.random() < 0.4:
-            t['custom']['tag'] = rng.choice(['T', None, 'long tag value here', 7])
+            t['custom']['tag'] = rng.choice(['T', None, 'long tag value here', 7, 'note ' + 'x' * 130])      # (values of any length)
+        if rng.random() < 0.05:
+            t['name'] = 'a task with a very long name ' + 'n' * 100
         if rng.random() < 0.15:
             t['custom']['print_color'] = rng.choice(COLORS + [None])
         tasks.append(t)
